@@ -29,6 +29,9 @@ type c11Extra struct {
 }
 
 // c11Build builds the schema tree; extras are added (writer) or not (reader).
+// c11HolderFirst: the structs of the next c11Build call declare the holder before their tagged fields.
+var c11HolderFirst bool
+
 func c11Build(nest string, holder bool, extras []c11Extra, fixedN bool) *ref.Struct {
 	sc := universe.Sc
 	D, O := ref.ReqDefault, ref.ReqOptional
@@ -40,6 +43,7 @@ func c11Build(nest string, holder bool, extras []c11Extra, fixedN bool) *ref.Str
 		}
 		s.SortFields()
 		s.Unknown = holder
+		s.UnknownFirst = holder && c11HolderFirst
 		return s
 	}
 	n2 := add(mk(fd(2, D, sc(ref.KBool)), fd(5, D, sc(ref.KString))), 2)
@@ -99,7 +103,7 @@ func init() {
 		Phases: func(tier universe.Tier) []*harness.Phase {
 			ps := []*harness.Phase{{
 				Name: "unknown-fields",
-				Rule: "6 nesting forms x 3 levels x 4 placements x 19 unknown field types x 21 second-extra variants (thorough: 117; incl. 9 and 17 additional unknown fields in one struct) x 3 wire orders; each with holder (decode, size, re-encode, second hop) and without; distinct by message bytes",
+				Rule: "6 nesting forms x 3 levels x 4 placements x 19 unknown field types x 21 second-extra variants (thorough: 117; incl. 9 and 17 additional unknown fields in one struct) x 3 wire orders x holder declared last / first; each with holder (decode, size, re-encode, second hop) and without; distinct by message bytes",
 				Body: func(c *explore.C) { c11Body(c, tier) },
 			}}
 			return append(ps, e3Phases("C11")...)
@@ -131,6 +135,11 @@ func c11Body(c *explore.C, tier universe.Tier) {
 	}
 	ord := c.Choose(3, explore.Data, "wire-order")
 	fixedN := c.Bool(explore.Data, "nested-struct-fixed-size-only")
+	c11HolderFirst = false
+	if len(extras) == 1 {
+		// (only without a second extra field: the holder's position is independent of what is skipped)
+		c11HolderFirst = c.Bool(explore.Data, "holder-declared-first")
+	}
 	harness.Cur.Crumb(c.Choices())
 	hooks.Reset()
 
